@@ -37,8 +37,8 @@ TARGETS = [
     "sigma.conversion.base:Backend.finalize",
 ]
 BOUNDS = {
-    "resolver": "4 named pipelines, priorities 0..1 (quick) / 0..2 (thorough) each (ties included), every non-empty subset in every order, resolved once or twice",
-    "addition": "3 operands + empty pipeline, 6 bracketing/history variants",
+    "resolver": "4 named pipelines, priorities 0..1 (quick) / 0..2 (thorough) each (ties included), every non-empty subset in every order, resolved once or twice; also with pipelines that have no transformation items (NOITEMS=1) and with pipelines whose declared names are all equal, i.e. ordered only by the identifier they are resolved by (SAMENAME=1)",
+    "addition": "3 operands + empty pipeline, 10 bracketing/history variants (incl. a post-processing-only operand reused in a later sum while the first backend keeps converting)",
     "stages": "backend/user/output-format pipelines present or absent, output format omitted / 'default' / 'alt', 1..2 rules x 1..2 conditions",
     "outside": "more than 4 pipelines; pipelines loaded from directories (file I/O)",
 }
@@ -47,7 +47,7 @@ ASSUMPTIONS = ["order of application is observed through order-sensitive marker 
 
 def pipe_yaml(tag: str, priority: int = 0, with_post=True, with_fin=True):
     y = f"""
-name: {tag}
+name: {"same" if P("SAMENAME", 0) else tag}
 priority: {priority}
 vars:
   last: {tag}
@@ -288,6 +288,7 @@ def c14a_concrete(p0: int, p1: int, p2: int, p3: int, spec_csv: str, twice: bool
 OBLIGATIONS = [
     Ob("c14a_resolver", {"PMAX": 1}, 900),
     Ob("c14a_resolver", {"PMAX": 1, "NOITEMS": 1}, 900),
+    Ob("c14a_resolver", {"PMAX": 1, "SAMENAME": 1}, 900),
     Ob("c14b_add", {"NOITEMS": 1}, 300),
     Ob("c14c_stages", {"NOITEMS": 1}, 300),
     Ob("c14a_resolver", {"PMAX": 2}, 3000, tier="thorough"),
